@@ -313,7 +313,7 @@ public:
             current_awaiter():co_awaiter(*_current) {}
             static bool await_ready() {
                 thread_pool *c = _current;
-                return c == nullptr || c->_exit;
+                return c == nullptr || c->is_stopped();
             }
         };
 
